@@ -359,6 +359,8 @@ func (v *VM) exec() {
 			v.stack = v.stack[:len(v.stack)-1]
 			if a.value != nil {
 				v.stack[baseN+int(i.A)] = newNext(a.Range())
+			} else if a.t&isNumericMask != 0 && a.t != TypeFloat64 {
+				v.stack[baseN+int(i.A)] = newNext(intRange(a))
 			} else {
 				v.stack[baseN+int(i.A)] = newNext(nilRange())
 			}
